@@ -61,6 +61,61 @@ def exact_scan_problems(prog, body: List[ast.stmt], key_name: str, what: str, re
     return probs
 
 
+def _norm_search(t):
+    """`X if X is not None else T`  (also `T if X is None else X`)  with  X = first@L(v | else None)  IS the chained search
+    first@L(v | else T): a helper that runs the exact scan through next(..., None), returns the hit when there is one and only
+    then goes on to the look-alike pass yields this shape.  (v is a column, never None; the rule checks v == the element.)"""
+    from ..symx import NONE as SNONE
+    if not isinstance(t, tuple) or not t:
+        return t
+    if t[0] == "cmp" and len(t) == 4 and t[1] in ("Is", "IsNot"):
+        return (t[0], t[1], _norm_search(t[2]), _norm_search(t[3]))
+    if t[0] != "ifexp":
+        return t
+    c = t[1]
+    if not (c[0] == "cmp" and c[1] in ("Is", "IsNot") and c[3] == SNONE):
+        return t
+    X = _norm_search(c[2])
+    when_none, other = (t[2], t[3]) if c[1] == "Is" else (t[3], t[2])
+    tail = X
+    while tail[0] == "first":
+        tail = tail[3]
+    if X[0] != "first" or tail != SNONE or _norm_search(other) != X:
+        return t
+
+    def assume_none(u):
+        # under `X is None`
+        while isinstance(u, tuple) and u and u[0] == "ifexp" and u[1][0] == "cmp" and u[1][1] in ("Is", "IsNot") \
+                and u[1][3] == SNONE and _norm_search(u[1][2]) == X:
+            u = u[2] if u[1][1] == "Is" else u[3]
+        return _norm_search(u)
+
+    def graft(x, new_tail):
+        return (x[0], x[1], x[2], graft(x[3], new_tail)) if x[0] == "first" else new_tail
+    return graft(X, assume_none(when_none))
+
+
+class _NormEvent:
+    """an event of the log with its search terms normalised (see _norm_search)"""
+    def __init__(self, e):
+        self._e = e
+        self.term = _norm_search(e.term) if e.kind == "return" else e.term
+        self.conds = _norm_conds(e.conds)
+
+    def __getattr__(self, k):
+        return getattr(self._e, k)
+
+
+def _norm_conds(conds):
+    out = []
+    for c in conds:
+        if isinstance(c, tuple) and len(c) == 2 and isinstance(c[1], bool):
+            out.append((_norm_search(c[0]), c[1]))
+        else:
+            out.append(c)
+    return tuple(out)
+
+
 def check(ctx, rule: str = "name-resolution") -> None:
     """Decided on the symx event log of Table._resolve_column and Table.__getitem__ (returns / raises with their path
     conditions), so the rule does not depend on how the branches and scans are written."""
@@ -122,7 +177,7 @@ def check(ctx, rule: str = "name-resolution") -> None:
             break
     if KEY is None:
         raise AnalysisError("Table.__getitem__: string-key branch (a test isinstance(key, str)) not found")
-    branch = [e for e in gi.events if (lit, True) in flatten_conds(e.conds) and e.kind in ("return", "raise")]
+    branch = [_NormEvent(e) for e in gi.events if (lit, True) in flatten_conds(e.conds) and e.kind in ("return", "raise")]
     branch.sort(key=lambda e: e.seq)
     what = "Table.__getitem__(str)"
     if not branch:
